@@ -100,6 +100,12 @@ CHECKS["C19"] = dict(
    text="TLC checks Format(ApiType(t, req)) = CoreType(t, req) for every type expression of depth <= 2 (3 thorough: 70k) over 24 leaf types (base types, enum, struct, typedefs of each incl. typedef of binary / list / enum list, cross-package struct / enum / typedef / exception), required and optional. Each reachable expression becomes the type of an optional parameter, a required parameter and the return value of a function with two exceptions (one cross-file) in services inheriting across two files; generation runs with and without --no-recurse. TLC compares, per item, the formatted description, the generated Args/Result field type, the WrapResponse/UnwrapResponse value types and the model's expectation; checks id resolution, acyclic parents, root services = services of the generated files, import path / directory consistency; and the lab executes every helper (value through the wire and back, each declared exception, an undeclared error, IsException).",
    note="Trusted: TLC, go/parser based type rendering with import aliases normalised, reflection-built helper inputs.")
 
+CHECKS["C20"] = dict(
+   level="model_checking", ref="DESIGN.md section 5 (C20), Break.tla",
+   technique="TLA+ model of thriftbreak (Break.tla: the property stated declaratively and the tool's comparison transcribed) checked by TLC over every edit script on a two-directory base program (MCBreak.tla); the same (old, new) program pairs committed to real git repositories, the real thriftbreak binary run on them (readable and -json, shuffled declaration order) and its diagnostics judged by TLC against the declarative statement (C20Trace.tla)",
+   text="TLC explores every script of <= 2 (3 thorough) edits of 15 kinds (field added optional / required, optional<->required, type changed, field removed, fields reordered, struct deleted / added, method removed / added, service removed / added, file deleted / added) over two files (one in a subdirectory) and checks that the transcribed algorithm reports exactly the declarative set, modulo the recorded finding; two negative controls (the tool as it is against the property as stated; the pre-fix method path against the property modulo the finding). A deterministic sample of the model's states is rendered to Thrift with shuffled declaration order, committed as HEAD~ / HEAD in scratch git repositories, and thriftbreak is run three times readable and once with -json; TLC checks that the lines are exactly the expected diagnostics, each once, the same in JSON mode, the same across runs and orders, and that the exit status is non-zero iff there are diagnostics.",
+   note="Trusted: TLC, the git CLI, the Python renderer of model programs to IDL. Known finding C20-deleted-service-base-name is matched by a structured class (only rows whose sole deviation is the base-name attribution of deleted services).")
+
 NOT_YET = {}
 
 def main():
